@@ -213,6 +213,10 @@ module Z :
 
 val hd : 'a1 -> 'a1 list -> 'a1
 
+val nth : nat -> 'a1 list -> 'a1 -> 'a1
+
+val nth_error : 'a1 list -> nat -> 'a1 option
+
 val last : 'a1 list -> 'a1 -> 'a1
 
 val concat : 'a1 list list -> 'a1 list
@@ -642,6 +646,14 @@ val alias_step : aobj -> op -> state -> res
 val alias_init_model :
   aobj -> ckind -> z list -> bool -> dreq -> operand -> char list list ->
   (char list * operand) list -> res
+
+val getitem : key -> state -> pyval list outcome
+
+val getattr_var : char list -> state -> pyval list outcome
+
+val alias_getitem : aobj -> key -> state -> pyval list outcome
+
+val alias_getattr_var : aobj -> char list -> state -> pyval list outcome
 
 val starts_underscore : char list -> bool
 
